@@ -2,10 +2,10 @@
 # maintenance: run every check of a tier in list-findings mode, log timing (never registered in MANIFEST)
 tier=${1:-thorough}
 cd /verif
-mkdir -p /dev/shm/thor
+mkdir -p ${THORDIR:-/dev/shm/thor}
 for p in ${2:-C01 C02 C03 C04 C05 C06 C07 C08 C09 C10 C11 C12 C13 C14 C15 C16 C17 C18 C19 C20}; do
   s=$(date +%s)
-  ./check $p --tier $tier --list-findings > /dev/shm/thor/$p.$tier.log 2>&1
-  echo "$p exit=$? wall=$(( $(date +%s) - s ))s $(tail -1 /dev/shm/thor/$p.$tier.log | cut -c1-220)" >> /dev/shm/thor/summary.$tier.txt
+  ./check $p --tier $tier --list-findings > ${THORDIR:-/dev/shm/thor}/$p.$tier.log 2>&1
+  echo "$p exit=$? wall=$(( $(date +%s) - s ))s $(tail -1 ${THORDIR:-/dev/shm/thor}/$p.$tier.log | cut -c1-220)" >> ${THORDIR:-/dev/shm/thor}/summary.$tier.txt
 done
-echo ALLDONE >> /dev/shm/thor/summary.$tier.txt
+echo ALLDONE >> ${THORDIR:-/dev/shm/thor}/summary.$tier.txt
